@@ -225,6 +225,11 @@ def status_body(r, k):
             "creation_datetime": 1.0, "start_time": 2.0, "duration": 3}
 
 
+def body_name(r):
+    return {"q": "body of a job still queued", "z": "body with zero time fields"}.get(
+        r[2] if len(r) > 2 else None, "body of a started job")
+
+
 def shown(job):
     return str(job).rsplit("status:", 1)[1]
 
@@ -447,8 +452,7 @@ def run_history(world: World, ops):
             if expect is not None and sh_same != expect:
                 if last_ok is not None:
                     hits.append(("status-not-last-read", k,
-                                 f"step {k}: the server answered {last_ok[1]!r} (body: "
-                                 f"{ {None: 'started', 'q': 'queued', 'z': 'zeros'}[last_ok[2] if len(last_ok) > 2 else None]}) "
+                                 f"step {k}: the server answered {last_ok[1]!r} ({body_name(last_ok)}) "
                                  f"but the job reports {sh_same}"))
                 else:
                     hits.append(("status-changed-without-read", k,
@@ -553,8 +557,10 @@ def alphabet_full():
     a += [["p", 0, H(500)], ["p", 0, H(404)], ["p", 0, CONN]]
     a += [["p", 1, S("completed")], ["p", 2, S("canceled")], ["p", 3, CONN], ["p", 4, H(429)],
           ["p", 5, S("cancel_requested")]]
+    # the job that never leaves the queue (body without start time) and is cancelled there
+    a += [["p", 0, S("waiting", "q")], ["p", 0, S("cancel_requested", "q")], ["p", 4, S("suspended", "z")]]
     a += [["c", S("running"), OK], ["c", S("running"), H(500)], ["c", S("completed"), OK], ["c", H(429), OK],
-          ["c", H(500), OK], ["c", CONN, CONN], ["c", S("suspended"), OK]]
+          ["c", H(500), OK], ["c", CONN, CONN], ["c", S("suspended"), OK], ["c", S("waiting", "q"), OK]]
     a += [["r", S("error"), CONN, OK, True], ["r", S("error"), CONN, OK, False],
           ["r", S("canceled"), CONN, H(500), True], ["r", S("running"), S("completed"), OK, True],
           ["r", CONN, CONN, OK, True], ["r", H(429), S("error"), OK, False], ["r", CONN, H(500), OK, True]]
@@ -569,6 +575,7 @@ def alphabet_full():
 def alphabet_reduced():
     return [["x", OK], ["x", H(400)],
             ["p", 0, S("running")], ["p", 0, S("completed")], ["p", 0, S("error")], ["p", 0, S("unknown")],
+            ["p", 0, S("cancel_requested", "q")], ["c", S("waiting", "q"), OK],
             ["p", 0, H(429)], ["p", 0, H(500)], ["p", 0, CONN], ["p", 2, S("canceled")], ["p", 1, CONN],
             ["c", S("running"), OK], ["c", CONN, OK], ["c", CONN, H(500)],
             ["r", CONN, CONN, OK, True], ["r", S("error"), CONN, OK, True], ["r", CONN, CONN, OK, False],
@@ -770,7 +777,8 @@ def rand_status_answer(rng, fail_bias):
             return S(rng.choice(CANON))
         return H(rng.choice([400, 401, 403, 404, 500, 502, 503]))
     if x < 0.5:
-        return S(rng.choice(CANON))
+        y = rng.random()
+        return S(rng.choice(CANON), None if y < 0.6 else ("q" if y < 0.9 else "z"))
     if x < 0.6:
         return S(rng.choice(ODD))
     if x < 0.78:
@@ -823,6 +831,57 @@ def gen_history(rng, max_len):
         else:
             ops.append(rand_op(rng, False))
     return ops[:max(n, 1)]
+
+
+def gen_lifecycle(rng, max_len):
+    """a history against a server that behaves like one: the job waits in the queue (bodies without start time),
+    runs, may be suspended, ends; an accepted cancel makes it answer cancel_requested and later canceled; a rerun
+    the client switches to starts over in the queue.  Faults are interleaved at a moderate rate so that guards are
+    evaluated on kept statuses too."""
+    ops = [["x", OK]]
+    state, started = "waiting", False
+    n = rng.randint(3, max(3, max_len))
+    fault = rng.choice([0.0, 0.15, 0.35])
+    linger = rng.choice([0.15, 0.35, 0.7])       # probability that the server moves on between two client actions
+
+    def ans():
+        y = rng.random()
+        if y < fault * 0.6:
+            return H(rng.choice(TRANSIENT))
+        if y < fault * 0.9:
+            return CONN
+        if y < fault:
+            return H(rng.choice([404, 500, 503]))
+        return S(state) if started else S(state, "q")
+
+    while len(ops) < n:
+        if rng.random() < linger:
+            if state == "waiting":
+                state, started = "running", True
+            elif state == "running":
+                state = rng.choice(["completed", "completed", "error", "suspended"])
+            elif state == "suspended":
+                state = "running"
+            elif state == "cancel_requested":
+                state = "canceled"
+        a1, a2 = ans(), ans()
+        z = rng.random()
+        if z < 0.5:
+            ops.append(["p", 0 if rng.random() < 0.6 else rng.randint(1, 5), a1])
+        elif z < 0.72:
+            h = OK if rng.random() < 0.85 else rand_h(rng)
+            ops.append(["c", a1, h])
+            if h == OK and state in ("waiting", "running", "suspended"):
+                state = "cancel_requested"
+        elif z < 0.84:
+            h = OK if rng.random() < 0.85 else rand_h(rng)
+            switch = rng.random() < 0.7
+            ops.append(["r", a1, a2, h, switch])
+            if h == OK and switch and state in ("error", "canceled") and a1[0] == "s":
+                state, started = "waiting", False
+        else:
+            ops.append(["g", a1, a2, rand_rh(rng)])
+    return ops
 
 
 # ------------------------------------------------------------------------------------------------
@@ -881,9 +940,20 @@ def clock_oracles(reads, outs):
     the server is the throttle: not part of the property statement, compared with the clocked model only.)"""
     hits = []
     fails, final = 0, False
+    prev = "WAITING"          # run_clock starts from a job just sent
     for k, ((q, r), o) in enumerate(zip(reads, outs), 2):
         res, _, sh, calls = o.split("|")
         sent = calls != ""
+        # the reported status is the last status successfully read; a read that did not reach the server
+        # (throttled, final) or failed keeps it
+        expect = MEANING.get(r[1]) if sent and r[0] == "s" else prev
+        if expect is not None and expect in MEANING.values():
+            if sh != expect or (not res.startswith("exc:") and res != "st:" + expect):
+                what = f"the server answered {r[1]!r} ({body_name(r)})" if sent and r[0] == "s" else \
+                    f"no status was read successfully (last known {prev})"
+                hits.append(("status-not-last-read" if sent and r[0] == "s" else "status-changed-without-read", k,
+                             f"read {k}: {what} but status() returned {res} and the job shows {sh}"))
+        prev = sh
         if sent and final:
             hits.append(("polls-after-final", k, f"read {k}: status request sent after the job showed a final status"))
         if sent:
@@ -904,7 +974,8 @@ def clock_oracles(reads, outs):
                                      f"instead of raised (result {res})"))
                 elif not must_raise and res.startswith("exc:"):
                     hits.append(("transient-not-absorbed", k,
-                                 f"read {k}: consecutive transient failure number {fails} was raised ({res})"))
+                                 f"read {k}: consecutive transient failure number {fails} was not absorbed: the call "
+                                 f"raised {res[4:]} instead of returning the last known status"))
         if sh in FINAL_NAMES:
             final = True
     return hits
@@ -1018,7 +1089,9 @@ def setup(chk):
         "absorbed", "raised-at-max", "raised-beyond-max", "fatal", "reset", "final-short-circuit", "second-read",
         "execute-refused", "create-failed", "cancel-accepted", "cancel-refused", "unsent-cancel", "rerun-accepted",
         "rerun-switch", "rerun-refused", "results-fetched", "results-cached", "results-refused", "failed-message",
-        "unknown-string", "throttled", "due-read", "whitelist-probe"]
+        "unknown-string", "throttled", "due-read", "whitelist-probe",
+        "last-read-checked", "status-kept-checked", "guard-on-kept-status", "queued-body", "cancel-while-queued",
+        "cancel-requested-after-queued-cancel", "lifecycle"]
     return World()
 
 
@@ -1047,13 +1120,17 @@ def run(chk: core.Check):
     # 3. random long histories
     n = chk.pick(1500, 12000)
     max_len = chk.pick(40, 200)
-    hists = [gen_history(chk.rng, max_len) for _ in range(n)]
-    reps = chk.lean.ask_many([{"fixed": True, "ops": h} for h in hists])
-    for h, rep in zip(hists, reps):
+    hists = [(gen_history(chk.rng, max_len), "random") for _ in range(n)]
+    # 3b. histories against a server that behaves like one (queue -> run -> end, cancel in the queue, rerun)
+    hists += [(gen_lifecycle(chk.rng, chk.pick(14, 40)), "lifecycle") for _ in range(chk.pick(1200, 8000))]
+    reps = chk.lean.ask_many([{"fixed": True, "ops": h} for h, _ in hists])
+    for (h, source), rep in zip(hists, reps):
         if "err" in rep:
             chk.fail("broken", "driver-rejects", rep["err"], {"ops": h})
             continue
-        handle(chk, world, h, "random", rep["outs"])
+        if source == "lifecycle":
+            chk.branch("lifecycle")
+        handle(chk, world, h, source, rep["outs"])
     # 4. exhaustive enumeration
     parts = [(alphabet_full(), chk.pick(3, 4), "full"),
              (alphabet_deep(chk.thorough), chk.pick(7, 8), "deep")]
